@@ -203,6 +203,21 @@ def _call_desc(plan, i):
             "sender": c["sender"]}
 
 
+def _harvest_live(res, stats, st, job, rng, entry, level):
+    """liveness observations: those made for code generation, and a seeded sample of those made for passes"""
+    if not st.want_live:
+        return
+    stats["live_runs"] = stats.get("live_runs", 0) + st.n_live_runs
+    cg = [o for o in st.live_obs if o["phase"] in ("codegen", "observer-error")]
+    rest = [o for o in st.live_obs if o["phase"] not in ("codegen", "observer-error")]
+    rng.shuffle(rest)
+    cap = job.get("live_cap", 4)
+    if job["tier"] == "quick" and level != job["levels"][-1]:
+        cg, rest = cg[:0], rest[:1]          # quick: code-generation tables of one level, one pass-time table per level
+    for o in cg[:2 * cap] + rest[:cap]:
+        res["live"].append(dict(o, prog=entry["name"], level=level))
+
+
 def run_program(job):
     """job: dict(entry, tier, seed, skip_sample(list of pass names to try even without disagreement), want_snaps)
     -> picklable result dict"""
@@ -250,6 +265,7 @@ def run_program(job):
             except Exception as e:  # noqa
                 res["findings"].append({"kind": "compile-failure", "level": level, "config": cfg.name,
                                         "error": f"{type(e).__name__}: {str(e)[:500]}"})
+                _harvest_live(res, stats, st, job, rng, entry, level)       # tables computed before the failure
                 continue
             stats["compiles"] += 1
             stats["invocations"] += st.n_invocations
@@ -280,17 +296,7 @@ def run_program(job):
                 if status in ("mismatch", "not-idempotent"):
                     res["findings"].append({"kind": "roundtrip", "level": level, "config": cfg.name, "pass": s["pass"], "fn": s["fn"],
                                             "idx": s["idx"], "status": status, "detail": detail, "text": s["after"][:3000]})
-            if st.want_live:
-                # liveness observations: all those made for code generation, and a seeded sample of those made for passes
-                stats["live_runs"] = stats.get("live_runs", 0) + st.n_live_runs
-                cg = [o for o in st.live_obs if o["phase"] in ("codegen", "observer-error")]
-                rest = [o for o in st.live_obs if o["phase"] not in ("codegen", "observer-error")]
-                rng.shuffle(rest)
-                cap = job.get("live_cap", 4)
-                if job["tier"] == "quick" and level != job["levels"][-1]:
-                    cg, rest = cg[:0], rest[:1]          # quick: code-generation tables of one level, one pass-time table per level
-                for o in cg[:2 * cap] + rest[:cap]:
-                    res["live"].append(dict(o, prog=entry["name"], level=level))
+            _harvest_live(res, stats, st, job, rng, entry, level)
             if job.get("want_snaps"):
                 for s in st.snaps:
                     if s["changed"] and s["fn"] != "<ctx>":
